@@ -18,7 +18,8 @@ def reply {β : Type} [WireBinder β] : Except Err (Term β) → String
   `nd2n <Term NamedDeBruijn>`  `d2n <Term DeBruijn>`         index → name, behaviour after the proposed fix
   `nd2n-orig …`  `d2n-orig …`                                index → name, as the code stands
   `nd2d <Term NamedDeBruijn>`  `d2nd <Term DeBruijn>`        projections
-  `intern <Term Name>`                                       `CodeGenInterner::program` -/
+  `intern <Term Name>`                                       `CodeGenInterner::program`
+  `pintern <Term Name>`                                      `parser::interner::Interner::program` -/
 def handle (args : List String) : String :=
   match args with
   | op :: rest =>
@@ -40,6 +41,10 @@ def handle (args : List String) : String :=
       | some t => "ok " ++ termToWire (namedDbToDb t) | none => "bad-request"
     | "d2nd" => match (termOfWire w : Option (Term DeBruijn)) with
       | some t => "ok " ++ termToWire (dbToNamedDb t) | none => "bad-request"
+    | "intern" => match (termOfWire w : Option (Term Name)) with
+      | some t => reply (intern t) | none => "bad-request"
+    | "pintern" => match (termOfWire w : Option (Term Name)) with
+      | some t => "ok " ++ termToWire (pintern t) | none => "bad-request"
     | _ => "bad-request"
   | _ => "bad-request"
 
